@@ -120,6 +120,11 @@ def run_case(c):
             loop.set_exception_handler(lambda l, ctx: None)
             b = bridge.SwitcherBridge(cb, ports)
             await b.start()
+            if rnd.random() < 0.7:
+                # a stopped bridge can be started again, and must deliver again
+                await b.stop()
+                await asyncio.sleep(0.1)
+                await b.start()
             want = {p: [] for p in ports}
             s = socket.socket(socket.AF_INET, socket.SOCK_DGRAM)
             sent = 0
